@@ -10,6 +10,7 @@ pub fn gen_case(fam: &str, r: &mut Rng, i: u64, p: &HashMap<String, String>) -> 
         "c02" => c02(r, i, p),
         "c03" => c03(r, i, p),
         "c04" => c04(r, i, p),
+        "c12" => c12(r, i, p),
         _ => vec![],
     }
 }
@@ -107,4 +108,50 @@ fn c04(r: &mut Rng, i: u64, _p: &HashMap<String, String>) -> Vec<Value> {
     let w = if pw > 0 { r.range(pw + 5, 40) } else { r.range(1, 40) };
     let html = doc_html(&body);
     vec![json!({"id": id("c04", i), "meta": {"pw": pw, "m": m}, "runs": [run(&html, w, cfg(deco, ops), "string")]})]
+}
+
+/// C12: one <pre> block of 1..8 lines over words / space runs / tabs / wide chars, optionally with
+/// inline elements and <br>, optionally nested in a list item or quote; rich lines route.
+fn c12(r: &mut Rng, i: u64, _p: &HashMap<String, String>) -> Vec<Value> {
+    let nlines = r.range(1, 8);
+    let alpha: Vec<char> = "abcdefghijklmnopqrstuvwxyz".chars().collect();
+    let mut kids: Vec<N> = Vec::new();
+    let mut cur = String::new();
+    let short = r.chance(1, 2);
+    for l in 0..nlines {
+        if l > 0 {
+            if r.chance(1, 6) { if !cur.is_empty() { kids.push(N::T(std::mem::take(&mut cur))); } kids.push(N::el("br", vec![])); }
+            else { cur.push('\n'); }
+        }
+        let ntok = if r.chance(1, 6) { 0 } else { r.range(1, if short { 4 } else { 10 }) };
+        for _ in 0..ntok {
+            match r.below(10) {
+                0 | 1 | 2 => for _ in 0..r.range(1, 5) { cur.push(' ') },
+                3 => cur.push('\t'),
+                4 => cur.push(*r.pick(&['一', '語', '🎉'])),
+                5 if r.chance(1, 2) => {
+                    // an inline element around a word
+                    if !cur.is_empty() { kids.push(N::T(std::mem::take(&mut cur))); }
+                    let wd: String = (0..r.range(1, 6)).map(|_| *r.pick(&alpha)).collect();
+                    kids.push(N::el(*r.pick(&["em", "span", "strong", "code"]), vec![N::T(wd)]));
+                }
+                _ => for _ in 0..r.range(1, 8) { cur.push(*r.pick(&alpha)) },
+            }
+        }
+    }
+    if !cur.is_empty() { kids.push(N::T(cur)); }
+    if kids.is_empty() { kids.push(N::T("x".into())); }
+    let pre = N::el("pre", kids);
+    let (body, pw) = match r.below(4) {
+        0 => (vec![N::el("blockquote", vec![pre])], 2u64),
+        1 => (vec![N::el("ul", vec![N::el("li", vec![pre])])], 2),
+        _ => (vec![pre], 0),
+    };
+    let w = r.range(1, 60);
+    let html = doc_html(&body);
+    let rich = r.chance(2, 3);
+    let (deco, route) = if rich { ("rich", "lines") } else { (*r.pick(&["trivial", "rich"]), "string") };
+    // the trivial decorator has no block prefixes
+    let pw = if deco == "trivial" { 0 } else { pw };
+    vec![json!({"id": id("c12", i), "meta": {"pw": pw}, "runs": [run(&html, w, cfg(deco, vec![]), route)]})]
 }
